@@ -1,6 +1,6 @@
 SPECIFICATION Spec
 CONSTANTS MaxRecs = 3 MaxCalls = 4 MaxRuns = 2 CommitBeforeReturn = TRUE TolerantVersionRead = TRUE
-          AtomicUpgrade = TRUE Legacy = FALSE MaxBatches = 1 GateResetOnError = TRUE ReloadWait = 0 MaxDepth = 1 EnterKeepsPending = TRUE ParentFirst = TRUE
+          AtomicUpgrade = TRUE Legacy = FALSE MaxBatches = 0 GateResetOnError = TRUE ReloadWait = 0 MaxDepth = 1 EnterKeepsPending = TRUE ParentFirst = TRUE
 CONSTANTS MaxVers = 2 TokenConflict = "ignore" MaxFaults = 2 CommitErrorRaises = TRUE
 INVARIANT TypeOK
 INVARIANT AckedUnchanged
